@@ -203,7 +203,8 @@ def parseGitHeaderName (r : Bytes) (strip : Int) : Except Exn Bytes :=
 /-- `parse_git_extended_info`: (recognised, patch) -/
 def parseGitExtendedInfo (r : Bytes) (p : Patch) (strip : Int) : Except Exn (Bool × Patch) :=
   -- not stripping at all keeps the name as it is (a strip of -1 would mean its base name)
-  let stripOfName : Int := if strip = 0 then 0 else strip - 1
+  -- any negative strip means the same (the base name), there is nothing to subtract from those (D98: `strip - 1` overflowed for INT_MIN)
+  let stripOfName : Int := if strip ≤ 0 then strip else strip - 1
   let parseFilename (r : Bytes) (pfx : String) : Except Exn Bytes :=
     let base : Except Exn Bytes :=
       match r with
